@@ -44,12 +44,13 @@ class Lock:
 # ---------------------------------------------------------------- translators (regenerated every run)
 
 def translate():
-    from translate import config as tconfig, natives as tnatives
+    from translate import config as tconfig, natives as tnatives, prelude as tprelude
     gen = os.path.join(LEAN_DIR, 'PiciModel', 'Generated')
     try:
         with Lock('translate'):
             tconfig.translate(REPO, os.path.join(gen, 'Config.lean'))
             tnatives.translate(REPO, os.path.join(gen, 'NativeTable.lean'))
+            tprelude.translate(REPO, os.path.join(gen, 'Prelude.lean'))
     except Exception as e:
         raise Broken('translator', f'cannot translate /repo sources: {e}')
 
@@ -137,7 +138,7 @@ def audit(modules):
         raise Broken('audit', (p.stdout + p.stderr)[-4000:])
     result = {}
     text = p.stdout.replace('\n  ', ' ')
-    for m in re.finditer(r"'([^']+)' (does not depend on any axioms|depends on axioms: \[([^\]]*)\])", text):
+    for m in re.finditer(r"^'(.+?)' (does not depend on any axioms|depends on axioms: \[([^\]]*)\])", text, re.M):
         axioms = [a.strip() for a in (m.group(3) or '').split(',') if a.strip()]
         result[m.group(1)] = axioms
     for _, n in thms:
